@@ -4,6 +4,7 @@ import (
 	"fmt"
 	"go/token"
 	"strconv"
+	"strings"
 
 	"sopverif/eng"
 )
@@ -451,6 +452,11 @@ func (f *shFlow) cmd(c *eng.ShCmd, st shState) []shResult {
 					continue
 				}
 				s2 := st.with(shEvent{Cmd: c, Kind: "case", Pattern: lit, Subject: subject, SubjectRaw: c.Words[0]})
+				// inside the arm the subject equals the pattern: a subject that is one plain variable holds that
+				// literal there (patterns with glob characters say less)
+				if name, isVar := shSoleVar(c.Words[0]); isVar && !strings.ContainsAny(lit, "*?[") {
+					s2 = s2.set(name, symVal{{lit: lit}}, true)
+				}
 				out = append(out, f.list(arm.Body, s2)...)
 			}
 		}
@@ -495,4 +501,16 @@ func shLitOf(v symVal) (string, bool) {
 		return v[0].lit, true
 	}
 	return "", false
+}
+
+// shSoleVar: the word is exactly one expansion of a variable ($x, ${x}, "$x", "${x}") without an operator.
+func shSoleVar(w *eng.ShWord) (string, bool) {
+	ps := w.Parts
+	if len(ps) == 1 && ps[0].Kind == eng.ShDQ {
+		ps = ps[0].Parts
+	}
+	if len(ps) != 1 || ps[0].Kind != eng.ShParam || ps[0].Text != "" || ps[0].Prefix != "" || ps[0].Index != "" {
+		return "", false
+	}
+	return ps[0].Name, true
 }
